@@ -6,6 +6,7 @@
   repairs remove.
 -/
 import PgVerif.Proofs.Control
+import PgVerif.Proofs.ControlTotal
 import PgVerif.Model.ControlOrig
 import PgVerif.Generated.Control
 import PgVerif.Spec.ControlAnchor
@@ -13,7 +14,7 @@ import PgVerif.Gen.Control
 namespace PgVerif.Props.C16
 open PgVerif PgVerif.Spec PgVerif.Proofs
 
-deriving instance DecidableEq for Except
+attribute [local instance] exceptDecEq
 
 /-- Fields.  For every well-formed control data `c` (every field anywhere in its range: 64-bit identifiers and
 LSNs, any int32 state, counters up to 2^32−1, wal_level 0..2, limits 0..2^31−1, legal block and WAL segment
@@ -68,7 +69,7 @@ example : Spec.xlogFileName 1 0x69300F358 (2 ^ 24) = "000000010000000600000093" 
 example : (2 : Nat) ^ 24 ∈ legalSegSizes := by decide
 
 /-- LSN text: `%X/%X` of the high and low halves, for every 64-bit value. -/
-theorem C16_lsn (lsn : Nat) (h : lsn < 2 ^ 64) : Model.formatLSN lsn = Spec.lsnText lsn := formatLSN_eq lsn h
+theorem C16_lsn (lsn : Nat) (h : lsn < 2 ^ 64) : Model.ctlFormatLSN lsn = Spec.lsnText lsn := ctlFormatLSN_eq lsn h
 
 /-- Names.  DBState.String is pg_controldata's wording on the seven defined states and "unknown (n)" on every
 other int32; the WAL level names are PostgreSQL's; and the model agrees with the graphs of DBState.String,
